@@ -11,14 +11,17 @@ NOTE = ("Trusted: Coq 8.16.1 kernel + vm_compute (no native_compute, no axioms: 
 # id -> (level text, technique, design ref, extra note)
 CLAIMED = {
     "C01": ("Theorems (closed, all histories, ALL nibble paths incl. empty key / prefixes / extensions / mid-path divergence): the tree-level "
-            "algorithms implement the map (C01_map, C01_exists, one-step laws). The database-level machine (Hexary/D.v: db, refcounts, "
-            "batches) is tied to /repo and to the tree level by differential runs evaluated in Coq; the D->T write refinement is not yet "
-            "proved, so the full statement C01_D is partial (stated in Properties/C01.v).",
+            "algorithms implement the map (C01_map, C01_exists, one-step laws); read and WRITE refinement of the database-level machine "
+            "(Hexary/D.v) to the tree level: for every history of direct set/delete/set-to-empty from the empty database, pruning off or "
+            "on, every call succeeds and get(k) = spec(k) for every byte-string key (C01_D_nonpruning, C01_D_pruning; premises: no "
+            "collision among / size bound on the bodies the history writes). Histories through squash_changes are tied by correspondence "
+            "(implementation = D model = T model, evaluated in Coq) and the batch theorems of C05.",
             "Coq proof (nested induction on the trie; fold over histories) + vm_compute correspondence of the D-level state machine", "5/C01", ""),
     "C02": ("Theorems (closed, every history, every hash function): canonical-shape invariant, canonical tree unique for its contents, "
             "history independence of the root, blank root for the empty mapping, and trun ops = Yellow-Paper construction yp_tree of the "
-            "contents, hence root = yp_root. External anchors: ethereum/tests vectors evaluated with the Gallina Keccak-256. Database-level "
-            "link by correspondence: impl root = troot keccak256 (T run) = yp_root keccak256 (mapping) at checkpoints, evaluated in Coq.",
+            "contents, hence root = yp_root; database level (C02_D): the root_hash attribute after any history of direct writes, pruning or "
+            "not, is yp_root of the contents. External anchors: ethereum/tests vectors evaluated with the Gallina Keccak-256. Batched "
+            "histories by correspondence: impl root = troot keccak256 (T run) = yp_root keccak256 (mapping), evaluated in Coq.",
             "Coq proof (invariant + uniqueness + specification equality) + in-Coq evaluation of the Yellow-Paper root for the oracle", "5/C02", ""),
     "C03": ("Theorems over the database-level model, any hash function, explicit finite no-collision premise: get_from_proof against ANY list "
             "of well-formed nodes and any root returns the true value or BadTrieProof (C03_sound); a withheld hashed node on the path gives "
@@ -55,11 +58,11 @@ CLAIMED = {
             "class (immediate from the definitions, as DESIGN says). The assurance for the code is the exhaustive correspondence: every "
             "public entry point x argument position x ill-typed kind x prior history, with the public API re-derived from the classes.",
             "Coq proof (by computation) + exhaustive vm_compute correspondence", "5/C18", ""),
-    "C06": ("Theorems over the database-level model: the pruning bookkeeping is exact GIVEN the traversal's events — 'counts = occ, db = support(occ)' "
-            "is preserved by a whole operation when its body persisted with multiplicities inc and requested prunes dec (C06_accounting); for "
-            "the real set/delete bodies all inc-side premises are discharged (C06_set_step/C06_delete_step); exact effect of "
-            "_complete_pruning; regenerate_ref_count only counts what it read. The schedule (inc/dec = occurrences gained/lost) is NOT "
-            "proved: exactness itself rests on the oracle (== regenerate_ref_count and == db key set after every call) + correspondence.",
+    "C06": ("Theorem C06_exact (write refinement for pruning tries): after every history of direct set/delete/set-to-empty from the empty "
+            "database, reference counts = occurrence counts of the tree-level result, the database holds exactly its nodes, every key is "
+            "readable and the root is yp_root — under an explicit executable no-collision premise. Plus the bookkeeping layer "
+            "(C06_accounting, _complete_pruning spec, regenerate only counts what it read). Histories containing squash_changes batches: "
+            "oracle (== regenerate_ref_count and == db key set after every call) + correspondence + C05.",
             "Coq proof (multiset/count arithmetic through the monadic model) + vm_compute correspondence + regenerate oracle after every call", "5/C06", ""),
     "C09": ("Theorems (tree-level LTS, every schedule = every exploration order, every interleaving with set/delete, reads of current or stale "
             "versions, simulated nodes): stable keys are met or still covered by the fog; complete fog => all stable keys met; no ghosts; "
